@@ -1,6 +1,7 @@
 import EraVerif.Model.Replica
 import EraVerif.Proofs.Certs
 import EraVerif.Proofs.ReplicaStep
+import EraVerif.Proofs.ReplicaTqc
 
 /-!
 # C05 — The replica follows the ChonkyBFT replica specification
@@ -25,8 +26,10 @@ handler is stuck in `queue_block` and the replica task ends with it (it has then
 `Wf` state (`no_panic`). The theorems about the resulting state are stated for `accepted` steps.
 
 View numbers. `ViewNumber::next` is `self.0 + 1` in the release profile, i.e. wrapping at 2^64 (`nextU64`). The only
-theorem that needs a no-wrap hypothesis is `view_monotone` (`NoWrap`: the commit / timeout vote's view + 1 < 2^64);
-everything else holds as stated with the wrapping successor.
+theorems that need a no-wrap hypothesis are `view_monotone` (`NoWrap`: the commit / timeout vote's view + 1 < 2^64)
+and the §10 invariant "a held timeout certificate is for a view strictly below the current view" (`NoWrapJ`: `NoWrap`,
+and the view + 1 < 2^64 of a timeout certificate that justifies a proposal / new-view message); everything else holds
+as stated with the wrapping successor.
 
 Vocabulary (defined in `Proofs/ReplicaStep.lean`, pinned down in §0).
 -/
@@ -36,6 +39,7 @@ open EraVerif.Model
 open EraVerif.Proofs
 open EraVerif.Proofs.Certs (CqcAssembled TqcAssembled tqcGroupWeight)
 open EraVerif.Proofs.ReplicaStep
+open EraVerif.Proofs.ReplicaTqc (TqcBelow DurableTqcBelow NoWrapJ)
 
 /-! ## 0. Vocabulary -/
 
@@ -120,6 +124,34 @@ theorem provenance_iff (cfg : RCfg) (s : Signed) (j : Just) :
   cases m <;> exact Iff.rfl
 
 theorem provenance_tick (cfg : RCfg) (j : Just) : ¬ Provenance cfg .tick j := fun h => h
+
+/-- a held timeout certificate is for a view strictly below the replica's view (§10) -/
+theorem tqcBelow_iff (r : Replica) : TqcBelow r ↔ ∀ q, r.highTimeoutQC = some q → q.view.number < r.view := Iff.rfl
+
+/-- the same for a persisted state -/
+theorem durableTqcBelow_iff (d : Durable) :
+    DurableTqcBelow d ↔ ∀ q, d.highTimeoutQC = some q → q.view.number < d.view := Iff.rfl
+
+/-- the no-wrap hypothesis of §10: `NoWrap`, and for a proposal / new-view message justified by a timeout
+certificate, that certificate's view + 1 < 2^64 (`justification.view()` is its wrapping successor) -/
+theorem noWrapJ_iff (s : Signed) :
+    NoWrapJ (.msg s) ↔ match s.msg with
+      | .commit v => v.view.number + 1 < 2 ^ 64
+      | .timeout t => t.view.number + 1 < 2 ^ 64
+      | .proposal _ (.timeout q) => q.view.number + 1 < 2 ^ 64
+      | .newView (.timeout q) => q.view.number + 1 < 2 ^ 64
+      | _ => True := by
+  obtain ⟨m, k, so⟩ := s
+  cases m with
+  | commit v => exact Iff.rfl
+  | timeout t => exact Iff.rfl
+  | proposal p j => cases j <;> exact Iff.rfl
+  | newView j => cases j <;> exact Iff.rfl
+
+theorem noWrapJ_tick : NoWrapJ .tick := trivial
+
+/-- it implies the hypothesis of `view_monotone` -/
+theorem noWrapJ_noWrap (inp : Input) (h : NoWrapJ inp) : NoWrap inp := h.noWrap
 
 /-! ## 1. A rejected input changes nothing -/
 
@@ -855,7 +887,85 @@ theorem reachable_step (cfg : RCfg) (r : Replica) (disk : Option Durable) (h : R
       newView_self_justifying cfg r e inp hw hin hacc, timeout_self_justifying cfg r e inp hw hin hacc,
       commit_is_high_vote cfg r e inp hw hin hacc, ha.persist⟩)
 
-/-! ## 10. Non-vacuity: a concrete committee (weights 1, 2, 3, 10: quorum 13) and a concrete run -/
+/-! ## 10. A held timeout certificate is for a view strictly below the current view
+
+`high_timeout_qc.view.number < view_number` — the harness checks this on the real replica after every step (monitor
+`view_not_above_timeout_qc`). In the code a timeout certificate for view `W` is only adopted together with a move to
+a view `≥ W.next()`: `on_timeout` calls `process_timeout_qc` and then `start_new_view(W.next())`; `on_new_view` /
+`on_proposal` have checked `justification.view().number = W.next() ≥` current view before processing it.
+
+Because `next` wraps, the statement needs the no-wrap hypothesis `NoWrapJ` on the input (`noWrapJ_iff`): it is
+`NoWrap` (needed as for `view_monotone`: a commit or timeout quorum for view 2^64 - 1 enters view 0 while a timeout
+certificate is held), and additionally "the timeout certificate that justifies a proposal / new-view message is not
+for view 2^64 - 1". The additional clause is necessary too, for the model as for the release build: in view 0, a
+new-view message from the leader of view 0 (or a proposal, in phase `prepare`) justified by a verifying timeout
+certificate for view 2^64 - 1 has `justification.view().number = 0`, is accepted, and the certificate is adopted while
+the replica stays in view 0 — see `exTqcWrap*` in §11 (a reachable state: `reachable_tqcBelow` is false for plain
+`Reachable`). Such a certificate needs a quorum of timeout votes for view 2^64 - 1, i.e. more than `f` faulty weight. -/
+
+theorem tqcBelow_init : TqcBelow (Replica.start none) := ReplicaTqc.tqcBelow_start_none
+
+/-- Every step preserves the invariant — from **any** state (`Wf` is not needed), for every environment answer and
+every input other than a restart, and whatever the outcome (accepted; rejected: state unchanged; blocked in
+`queue_block`: the certificate was not yet adopted) — if no view carried by the input wraps (`NoWrapJ`).
+
+Full statement (without `NoWrapJ`, or with `NoWrap` only): false, see the section comment and `exTqcWrap_violates`. -/
+theorem tqcBelow_preserved (cfg : RCfg) (r : Replica) (e : Env) (inp : Input) (hin : ∀ b, inp ≠ .restart b)
+    (ht : TqcBelow r) (hnw : NoWrapJ inp) : TqcBelow (step cfg r e inp).r :=
+  ReplicaTqc.tqcBelow_step cfg ht e inp hin hnw
+
+/-- every state written to disk by a step from a well-formed state satisfying the invariant satisfies it (only
+accepted steps write: what they write is the durable part of the resulting state) -/
+theorem persisted_tqcBelow (cfg : RCfg) (r : Replica) (e : Env) (inp : Input) (hw : Wf cfg r)
+    (hin : ∀ b, inp ≠ .restart b) (ht : TqcBelow r) (hnw : NoWrapJ inp) (d : Durable)
+    (hd : Effect.persist d ∈ (step cfg r e inp).effs) : DurableTqcBelow d := by
+  rcases step_wf hw e inp hin with ⟨w, hr⟩ | ⟨_, hq⟩ | ⟨_, ha⟩
+  · rw [(step_rejected hr).2] at hd; cases hd
+  · exact absurd hd (hq.no_persist d)
+  · rw [ha.persist d hd]
+    exact (tqcBelow_preserved cfg r e inp hin ht hnw).durable
+
+/-- restoring a persisted state that satisfies the invariant -/
+theorem tqcBelow_restart (d : Durable) (h : DurableTqcBelow d) : TqcBelow (Replica.start (some d)) :=
+  ReplicaTqc.tqcBelow_start_some d h
+
+/-- `Reachable` restricted to runs in which no input wraps a view number (`NoWrapJ`; `Reachable` itself has no such
+side condition) -/
+inductive ReachableNoWrap (cfg : RCfg) : Replica → Option Durable → Prop
+  | init : ReachableNoWrap cfg (Replica.start none) none
+  | step {r : Replica} {disk : Option Durable} (e : Env) (inp : Input) :
+      ReachableNoWrap cfg r disk → (∀ b, inp ≠ .restart b) → NoWrapJ inp → (step cfg r e inp).out = .accepted →
+      ReachableNoWrap cfg (step cfg r e inp).r (lastPersist disk (step cfg r e inp).effs)
+  | crash {r : Replica} {disk : Option Durable} :
+      ReachableNoWrap cfg r disk → ReachableNoWrap cfg (step cfg r default (.restart disk)).r disk
+
+theorem ReachableNoWrap.reachable {cfg : RCfg} {r : Replica} {disk : Option Durable} (h : ReachableNoWrap cfg r disk) :
+    Reachable cfg r disk := by
+  induction h with
+  | init => exact .init
+  | step e inp _ hin _ hacc ih => exact .step e inp ih hin hacc
+  | crash _ ih => exact .crash ih
+
+/-- **in every state reachable without wrapping a view number the held timeout certificate is for a view strictly
+below the current view, and so is the one on disk** (any input sequence, crashes and restarts included).
+
+For plain `Reachable` the statement is false (`exTqcWrap_reachable`, `exTqcWrap_violates`); `NoWrapJ` on every input
+of the run is the extra hypothesis. -/
+theorem reachable_tqcBelow (cfg : RCfg) (r : Replica) (disk : Option Durable) (h : ReachableNoWrap cfg r disk) :
+    TqcBelow r ∧ ∀ d, disk = some d → DurableTqcBelow d := by
+  induction h with
+  | init => exact ⟨tqcBelow_init, fun d hd => by cases hd⟩
+  | @step r disk e inp hr hin hnw hacc ih =>
+    have hw := (reachable_wf cfg r disk hr.reachable).1
+    refine ⟨tqcBelow_preserved cfg r e inp hin ih.1 hnw, ?_⟩
+    exact lastPersist_inv _ _ _ ih.2 (fun d hd => persisted_tqcBelow cfg r e inp hw hin ih.1 hnw d hd)
+  | @crash r disk _ ih =>
+    refine ⟨?_, ih.2⟩
+    cases disk with
+    | none => exact tqcBelow_init
+    | some d => exact tqcBelow_restart d (ih.2 d rfl)
+
+/-! ## 11. Non-vacuity: a concrete committee (weights 1, 2, 3, 10: quorum 13) and a concrete run -/
 
 section Examples
 
@@ -967,6 +1077,64 @@ example : Wf exCfg exWrapS0 :=
 
 example : exWrapS1.view = 2 ^ 64 - 1 ∧ exWrapS2.r.view = 0 := by decide
 example : exWrapS2.out = .accepted := rfl
+
+/-- §10 is not vacuous: `exS3` is reachable without wrapping, holds the timeout certificate for view 0 and is in
+view 1 -/
+theorem exS3_reachableNoWrap : ∃ disk, ReachableNoWrap exCfg exS3 disk :=
+  ⟨_, .step exEnv (.msg ⟨.timeout exT0, 2, true⟩)
+    (.step exEnv (.msg ⟨.timeout exT0, 3, true⟩)
+      (.step exEnv .tick .init (by intro b h; cases h) trivial rfl)
+      (by intro b h; cases h) (show (0 : Nat) + 1 < 2 ^ 64 by decide) rfl)
+    (by intro b h; cases h) (show (0 : Nat) + 1 < 2 ^ 64 by decide) rfl⟩
+
+example : TqcBelow exS3 ∧ exS3.highTimeoutQC = some exTQC ∧ exTQC.view.number = 0 ∧ exS3.view = 1 := by
+  obtain ⟨d, h⟩ := exS3_reachableNoWrap
+  exact ⟨(reachable_tqcBelow _ _ _ h).1, by decide⟩
+
+/-- the proposal on that certificate is a non-trivial instance of `NoWrapJ` (and of `tqcBelow_preserved`) -/
+example : NoWrapJ (.msg ⟨.proposal (some exPayload) (.timeout exTQC), 1, true⟩) ∧ TqcBelow exS4 := by
+  have hnw : NoWrapJ (.msg ⟨.proposal (some exPayload) (.timeout exTQC), 1, true⟩) := by
+    show exTQC.view.number + 1 < 2 ^ 64
+    decide
+  obtain ⟨d, h⟩ := exS3_reachableNoWrap
+  exact ⟨hnw, tqcBelow_preserved exCfg exS3 exEnv _ (by intro b h; cases h) (reachable_tqcBelow _ _ _ h).1 hnw⟩
+
+/-- §10 really needs the clause `NoWrapJ` adds to `NoWrap`: a verifying timeout certificate for view 2^64 - 1 (signed
+by validators 2 and 3: weight 13) justifies "view 0"; the new-view message carrying it, sent by the leader of view 0
+to the freshly started replica, is accepted, the certificate is adopted, and the replica stays in view 0 -/
+def exTqcWrapVote : TVote := { view := { genesis := 7, epoch := 2, number := 2 ^ 64 - 1 }, highVote := none, highQC := none }
+def exTqcWrapQC : TimeoutQC :=
+  { view := exTqcWrapVote.view, map := [(exTqcWrapVote, [false, false, true, true])],
+    sig := [(2, exTqcWrapVote), (3, exTqcWrapVote)] }
+def exTqcWrapIn : Input := .msg ⟨.newView (.timeout exTqcWrapQC), 0, true⟩
+def exTqcWrapS : StepRes := step exCfg (Replica.start none) exEnv exTqcWrapIn
+
+example : exTqcWrapQC.verify exCfg.c = true ∧ (Just.timeout exTqcWrapQC).viewNumber = 0 := by decide
+example : exTqcWrapS.out = .accepted := rfl
+example : NoWrap exTqcWrapIn ∧ ¬ NoWrapJ exTqcWrapIn := by
+  refine ⟨trivial, ?_⟩
+  show ¬ (2 ^ 64 - 1 + 1 < 2 ^ 64)
+  decide
+
+theorem exTqcWrap_reachable : ∃ disk, Reachable exCfg exTqcWrapS.r disk :=
+  ⟨_, .step exEnv exTqcWrapIn .init (by intro b h; cases h) rfl⟩
+
+theorem exTqcWrap_violates : TqcBelow (Replica.start none) ∧ Wf exCfg (Replica.start none) ∧ ¬ TqcBelow exTqcWrapS.r := by
+  refine ⟨tqcBelow_init, wf_init _, fun h => ?_⟩
+  have h1 : exTqcWrapS.r.highTimeoutQC = some exTqcWrapQC := by decide
+  have h2 : exTqcWrapS.r.view = 0 := by decide
+  have := h _ h1
+  rw [h2] at this
+  exact Nat.not_lt_zero _ this
+
+/-- the same through a proposal (phase `prepare`, view 0, from the leader of view 0: a re-proposal is not implied, so
+with a fresh payload) -/
+example : (step exCfg (Replica.start none) exEnv (.msg ⟨.proposal (some exPayload) (.timeout exTqcWrapQC), 0, true⟩)).out
+      = .accepted ∧
+    (step exCfg (Replica.start none) exEnv (.msg ⟨.proposal (some exPayload) (.timeout exTqcWrapQC), 0, true⟩)).r.view = 0 ∧
+    (step exCfg (Replica.start none) exEnv
+      (.msg ⟨.proposal (some exPayload) (.timeout exTqcWrapQC), 0, true⟩)).r.highTimeoutQC = some exTqcWrapQC :=
+  ⟨rfl, by decide⟩
 
 end Examples
 
